@@ -108,6 +108,9 @@ def run(ctx):
         t = json.loads(subprocess.run([drv, "titlemap"], input=json.dumps(ws), capture_output=True, text=True, env=ctx.env).stdout or "{}")
         finfo[name] = dict(path=p, words=[cps(w) for w in ws], titles=[cps(t[w]) for w in ws], maxlen=max([len(w) for w in ws] + [1]), readable=1)
     finfo["missing"] = dict(path=os.path.join(fdir, "does-not-exist.txt"), words=[], titles=[], maxlen=1, readable=0)
+    # a word list that is not a regular file: standard input (a pipe whose size a stat call reports as 0)
+    finfo["stdin"] = dict(finfo["twins"], path="/dev/stdin")
+    stdin_body = FILES["twins"].encode("utf-8")
     cases = []
     seen = set()
 
@@ -164,7 +167,7 @@ def run(ctx):
         add("words", [("file", "percent"), ("size", "3")])
     for c in CAPS:
         add("words", [("capitalize", c), ("list", "syllables")])
-    for f in list(FILES) + ["missing"]:
+    for f in list(FILES) + ["missing", "stdin"]:
         add("words", [("file", f), ("capitalize", "random"), ("separator", "none")])
         add("words", [("file", f), ("capitalize", "random"), ("entropy", None), ("size", "2")])
         add("words", [("file", f), ("size", "1"), ("separator", "comma")])
@@ -195,7 +198,9 @@ def run(ctx):
     def one(case):
         argv, st = case
         try:
-            p = subprocess.run([opgen] + argv, capture_output=True, timeout=60, cwd=ctx.scratch, env=envs.get(id(st)))
+            uses_stdin = any(a.endswith("/dev/stdin") for a in argv)
+            p = subprocess.run([opgen] + argv, capture_output=True, timeout=60, cwd=ctx.scratch, env=envs.get(id(st)),
+                               input=stdin_body if uses_stdin else None, stdin=None if uses_stdin else subprocess.DEVNULL)
         except subprocess.TimeoutExpired:
             return dict(st, op="cli", exit=-1, out=[], errn=0, argv=" ".join(argv))
         out = p.stdout.decode("utf-8", "replace").split("\n")
